@@ -151,7 +151,31 @@ LAWS = [
     Law("flatten-nested", "f", 1, None),   # handled specially
     Law("transpose", "∩", 1, None),        # handled specially
 ]
-LAW_BY_NAME = {law.name: law for law in LAWS}
+def _subs(s):
+    return [s[i:j] for i in range(len(s)) for j in range(i + 1, len(s) + 1)]
+
+
+# laws on strings (the named elements' string overloads keep the same definitions, on characters)
+STR_LAWS = [
+    Law("str-sort", "s", 1, lambda s: "".join(sorted(s))),
+    Law("str-reverse", "Ṙ", 1, lambda s: s[::-1]),
+    Law("str-reverse-involution", "ṘṘ", 1, lambda s: s),
+    Law("str-uniquify", "U", 1, lambda s: "".join(_uniq(list(s)))),
+    Law("str-length", "L", 1, lambda s: len(s)),
+    Law("str-uninterleave", "y", 1, lambda s: [s[::2], s[1::2]], nres=2),
+    Law("str-sublists", "ÞS", 1, _subs, cmp="multiset"),
+    Law("str-powerset", "ṗ", 1, lambda s: [list(c) for r in range(len(s) + 1) for c in itertools.combinations(s, r)], cmp="multiset"),
+    Law("str-permutations", "Ṗ", 1, lambda s: ["".join(p) for p in itertools.permutations(s)], cmp="multiset", pre=lambda s: len(s) <= 5),
+    Law("str-counts", "Ċ", 1, lambda s: [[c, s.count(c)] for c in _uniq(list(s))]),
+    Law("str-group-consecutive", "Ġ", 1, lambda s: _groups(list(s)), pre=lambda s: len(s) >= 1),
+    Law("str-zip", "Z", 2, lambda a, b: [[x, y] for x, y in itertools.zip_longest(a, b, fillvalue=0)], pre=lambda a, b: isinstance(b, str)),
+    Law("str-interleave", "Y", 2, lambda a, b: "".join(_interleave(list(a), list(b))), pre=lambda a, b: isinstance(b, str)),
+    Law("str-count", "O", 2, lambda a, b: a.count(b), pre=lambda a, b: isinstance(b, str) and len(b) >= 1),
+    Law("str-contains", "c", 2, lambda a, b: int(b in a), pre=lambda a, b: isinstance(b, str)),
+    Law("str-wrap", "ẇ", 2, lambda a, k: [a[i:i + k] for i in range(0, len(a), k)], pre=lambda a, k: isinstance(k, int) and k >= 1),
+]
+LAWS_ALL = LAWS + STR_LAWS
+LAW_BY_NAME = {law.name: law for law in LAWS_ALL}
 SECOND = [[], [1], [1, 5], [0, 0, 2], [3, 1, 2, 1], 0, 1, 2, 3, -1, 5]
 
 
@@ -207,7 +231,7 @@ def check(name, args, lazy):
 
 
 def _nontrivial(xs):
-    return isinstance(xs, list) and len(xs) >= 2 and len(set(map(repr, xs))) < len(xs)
+    return isinstance(xs, (list, str)) and len(xs) >= 2 and len(set(map(repr, xs))) < len(xs)
 
 
 def _do(rec, name, args, lazy, cls):
@@ -248,6 +272,28 @@ def _shard_exh(rec, arg):
         rec.sample({"xs": [1, 1, 0], "second": [1, 5], "law": "zip", "expected": [[1, 1], [1, 5], [0, 0]]})
 
 
+def _str_laws_on(rec, s_, cls, seconds):
+    for law in STR_LAWS:
+        if law.arity == 1:
+            _do(rec, law.name, [s_], False, cls)
+        else:
+            for sec in seconds:
+                _do(rec, law.name, [s_, sec], False, cls)
+
+
+def _shard_str(rec, arg):
+    shard, nshards, maxlen = arg
+    i = 0
+    for L in range(0, maxlen + 1):
+        for tup in itertools.product("ab c", repeat=L):
+            i += 1
+            if i % nshards != shard:
+                continue
+            _str_laws_on(rec, "".join(tup), "exhaustive-strings", ["", "a", "ab", "ba ", 1, 2, 3])
+    if shard == 0:
+        rec.sample({"string": "ab a", "law": "str-counts", "expected": [["a", 2], ["b", 1], [" ", 1]]})
+
+
 def _shard_hyp(rec, arg):
     seed, n = arg
     ints = st.lists(st.integers(-9, 30), max_size=12)
@@ -260,6 +306,11 @@ def _shard_hyp(rec, arg):
 
     campaign.hyp_run(t, {"xs": ints, "s": sec}, seed, n)
 
+    def t2(s_, sec_):
+        _str_laws_on(rec, s_, "random-strings", [sec_])
+
+    campaign.hyp_run(t2, {"s_": st.text("abc xyz,", max_size=7), "sec_": st.one_of(st.text("abc x", max_size=3), st.integers(1, 4))}, seed + 5, n)
+
 
 def run(rec, tier, seed):
     quick = tier == "quick"
@@ -267,15 +318,23 @@ def run(rec, tier, seed):
     maxlen = 3 if quick else 5
     campaign.parallel(rec, _shard_exh, [(s, ns * 2, maxlen) for s in range(ns * 2)])
     rec.exhaustive.append(f"all int lists of length<={maxlen} over -2..3, eager and lazy, x {len(LAWS)} laws x {len(SECOND)} second operands")
+    campaign.parallel(rec, _shard_str, [(s, ns, 4 if quick else 6) for s in range(ns)])
+    rec.exhaustive.append(f"all strings of length<={4 if quick else 6} over 'ab c' x {len(STR_LAWS)} string laws")
     n = 60 if quick else 2500
     campaign.parallel(rec, _shard_hyp, [(seed * 1000 + i, n) for i in range(ns)])
-    rec.notes["n_laws"] = len(LAWS)
+    rec.notes["n_laws"] = len(LAWS_ALL)
 
 
 def replay(case):
     name = case.get("law")
     args = case.get("args")
-    if name not in LAW_BY_NAME or not isinstance(args, list) or not args or not isinstance(args[0], list):
+    if name not in LAW_BY_NAME or not isinstance(args, list) or not args:
+        return None
+    if name.startswith("str-"):
+        if not isinstance(args[0], str) or len(args) != LAW_BY_NAME[name].arity or (len(args) == 2 and not isinstance(args[1], (str, int))):
+            return None
+        return check(name, args, False)
+    if not isinstance(args[0], list):
         return None
     if any(not isinstance(x, int) or isinstance(x, bool) for x in args[0]):
         return None
